@@ -12,7 +12,7 @@
 -/
 import GraphiqModel.Proofs.LCBlock
 namespace Graphiq.LC
-open Graphiq
+open Graphiq PRow Tab
 
 /-! ### `solution[nodes] = component_solution` -/
 
@@ -246,5 +246,52 @@ theorem restrict_valid (n : Nat) (A B : Adj) (hA : Simple n A) (hB : Simple n B)
     intro m hm
     rw [detQ_congr _ (restrictQ (vget v) c) m (fun t ht => vget_map_range (4 * c.length) _ _ (by omega))]
     exact hblock.2 m hm
+
+/-! ### search paths of the unrepaired function, and the checked path of `lc_check` over the repaired one -/
+
+/-- the search path recorded by `isLcEquivalent` is one of four, and the last two tell the mode -/
+theorem isLcEquivalent_paths (a b : BMat) (mode : Mode) (draws : List Bool) (out : EqOut)
+    (e : isLcEquivalent a b mode draws = .ok out) :
+    out.path = "full-rank" ∨ out.path = "all-combinations" ∨ (out.path = "random" ∧ mode = .rand) ∨
+      (out.path = "pair-sums" ∧ mode = .det) := by
+  unfold isLcEquivalent at e
+  simp only [] at e
+  repeat' split at e
+  all_goals first
+    | (cases e; done)
+    | (have h := Except.ok.inj e; subst h; simp)
+
+/-- in deterministic mode the draws are never read -/
+theorem isLcEquivalent_det_draws (a b : BMat) (d d' : List Bool) :
+    isLcEquivalent a b .det d = isLcEquivalent a b .det d' := by
+  unfold isLcEquivalent
+  rfl
+
+theorem lcCheckR_sound (a b : BMat) (gates : List (String × Nat)) (hA : Simple a.r a.f)
+    (e : lcCheckR a b true = .ok (true, gates)) :
+    ∃ t, runGates (graphTab a.r a.f) gates = .ok t ∧ t.n = a.r ∧ t.Valid ∧
+      ∀ q, q < a.r → InSpan t.n t.n t.stab (graphGen b.f q) := by
+  unfold lcCheckR at e
+  split at e
+  · cases e
+  · simp only [if_true] at e
+    split at e
+    · cases e
+    · rename_i t et
+      split at e
+      · rename_i hg
+        cases e
+        obtain ⟨h1, h2⟩ := runGates_spec _ t gates (graphTab_valid a.r a.f hA) et
+        refine ⟨t, et, h1, h2, fun q hq => isGraphState_inSpan t b.f hg q (by rw [h1]; exact hq)⟩
+      · cases e
+
+/-- every component is non-empty, its vertices are vertices of the graph, and its induced graph is simple and connected -/
+theorem component_facts (n : Nat) (A : Adj) (hA : Simple n A) (c : List Nat) (hc : c ∈ connectedComponents n A) :
+    0 < c.length ∧ (∀ v ∈ c, v < n) ∧ Simple c.length (subAdj A c) ∧ Connected c.length (subAdj A c) := by
+  obtain ⟨hP, _, hS⟩ := connectedComponents_partition n A hA.1
+  obtain ⟨s, hs, e⟩ := hS c hc
+  have hlt : ∀ v ∈ c, v < n := fun v hv => hP.lt c hc v hv
+  refine ⟨List.length_pos_of_mem (by rw [e]; exact self_mem_componentOf n A s hs), hlt, sub_simple n A hA c hlt, ?_⟩
+  rw [e]; exact sub_connected n A hA.1 s hs
 
 end Graphiq.LC
